@@ -440,7 +440,56 @@ def check_swap(ctx, unit, classes, rule="S.swap"):
                         elif ident:
                             toks = toks | {"<distinct>"}
                     return [(toks, vals)]
-                _, ex = _flow.run(f, [(frozenset(), sx.initial() if sx is not None else frozenset())], transfer, refine)
+                # a decision computed by a folded helper and dispatched on by a `switch` (`switch(_inline_sides(a, b))`): the
+                # constant the helper returned on this path is remembered, and only the matching case is entered
+                v2c_ = {}
+                for n_ in f.all_nodes():
+                    if n_.d.get("inlined") and isinstance(n_.d.get("rets"), list):
+                        for r_ in n_.d["rets"]:
+                            v2c_[r_] = n_.id
+
+                def transfer_sw(n, st):
+                    outs = transfer(n, st)
+                    if n.kind == "InlinedReturn" and n.d.get("val") in v2c_:
+                        c_ = std_unwrap(f.node(n.d["val"])).cv()
+                        cid = v2c_[n.d["val"]]
+                        if c_ is None and outs:
+                            # `return b._is_small() ? both : first;`: read with the decisions this path has taken
+                            memo_ = {t_[1]: t_[2] for t_ in outs[0][0] if isinstance(t_, tuple) and t_[0] == "dec"}
+                            try:
+                                c_ = _flow.sem_eval(f.node(n.d["val"]), lambda leaf: None, memo_)
+                            except Exception:
+                                c_ = None
+                        res = []
+                        for toks_, vals_ in outs:
+                            toks_ = frozenset(t_ for t_ in toks_ if not (isinstance(t_, tuple) and t_[0] == "ret" and t_[1] == cid))
+                            if c_ is not None:
+                                toks_ = toks_ | {("ret", cid, int(c_))}
+                            res.append((toks_, vals_))
+                        return res
+                    return outs
+
+                def refine_sw(cond, casev, allv, st):
+                    x = cond.strip()
+                    hops = 0
+                    while x.kind in ("ImplicitCastExpr", "ParenExpr", "CXXStaticCastExpr", "CStyleCastExpr") and x.children and hops < 6:
+                        x, hops = x.children[0].strip(), hops + 1
+                    known = [t_[2] for t_ in st[0] if isinstance(t_, tuple) and t_[0] == "ret" and t_[1] == x.id]
+                    if not known:
+                        return [st]
+                    if casev is None:
+                        return [st] if known[0] not in allv else []
+                    return [st] if known[0] == casev else []
+                def refine_dec(cond, truth, st):
+                    res = []
+                    for toks_, vals_ in refine(cond, truth, st):
+                        cid_ = cond.strip().id
+                        toks_ = frozenset(t_ for t_ in toks_ if not (isinstance(t_, tuple) and t_[0] == "dec" and t_[1] == cid_))
+                        if len(toks_) < 64:
+                            toks_ = toks_ | {("dec", cid_, 1 if truth else 0)}
+                        res.append((toks_, vals_))
+                    return res
+                _, ex = _flow.run(f, [(frozenset(), sx.initial() if sx is not None else frozenset())], transfer_sw, refine_dec, refine_switch=refine_sw)
                 swapped = set(fields)
                 why = []
                 for toks, vals in ex:
